@@ -28,7 +28,22 @@ pub fn ctx_from(args: &[String]) -> Ctx {
 fn sample_of(case: &Case, out: &Outcome) -> serde_json::Value {
     let doc = case.doc_bytes();
     let shown: String = String::from_utf8_lossy(&doc[..doc.len().min(160)]).into_owned();
+    // call histories carry their C strings as hex: a readable rendering for the evidence file
+    let calls: Vec<String> = case
+        .extra
+        .get("ops")
+        .and_then(|o| o.as_array())
+        .map(|ops| {
+            ops.iter()
+                .map(|o| {
+                    let strs: Vec<String> = o.get("s").and_then(|s| s.as_array()).map(|a| a.iter().map(|x| x.as_str().map_or("NULL".to_string(), |h| format!("{:?}", String::from_utf8_lossy(&unhex(h))))).collect()).unwrap_or_default();
+                    format!("t{} {}(h={} n={} s=[{}])", o.get("t").and_then(|t| t.as_u64()).unwrap_or(0), o.get("f").and_then(|f| f.as_str()).unwrap_or("?"), o.get("h").map(|h| h.to_string()).unwrap_or_default(), o.get("n").map(|h| h.to_string()).unwrap_or_default(), strs.join(", "))
+                })
+                .collect()
+        })
+        .unwrap_or_default();
     serde_json::json!({
+        "calls_readable": calls,
         "scenario": case.scenario,
         "origin": case.origin,
         "doc_prefix": shown,
